@@ -29,7 +29,7 @@ var primSet = map[string]bool{
 	"(*sync.Pool).Get": true, "(*sync.Pool).Put": true,
 	"time.Now": true, "time.NewTicker": true, "(*time.Ticker).Stop": true, "(time.Time).Add": true, "(time.Time).Before": true, "(time.Time).IsZero": true,
 	"context.WithCancel": true, "context.Background": true, "runtime.NumCPU": true,
-	"fmt.Errorf": true, "fmt.Sprintf": true, "errors.New": true,
+	"fmt.Errorf": true, "fmt.Sprintf": true, "errors.New": true, "errors.Is": true,
 	"reflect.ValueOf": true, "(reflect.Value).Pointer": true,
 	"encoding/json.Marshal": true, "encoding/json.Unmarshal": true,
 }
@@ -188,6 +188,14 @@ func (st *State) primitive(f *ssa.Function, args []Val, site ssa.Instruction) (V
 		// returns when the counter is zero; other goroutines' effects on the counter: the counter is zero afterwards
 		st.store(p, TV{tInt(0), p.Elem})
 		return TupleV{}, true
+	case "errors.Is":
+		// errors.Is(err, target): true when err == target, false for a nil err and a non-nil target; for anything else (wrapped
+		// errors, Is methods) the answer is left open
+		e, tg := st.termOf(args[0]), st.termOf(args[1])
+		r := st.declare("errorsIs", SBool)
+		st.assume(tImp(tEq(e, tg), r))
+		st.assume(tImp(tAnd(tEq(e, tInt(0)), tNot(tEq(tg, tInt(0)))), tNot(r)))
+		return TV{r, types.Typ[types.Bool]}, true
 	case "sync.NewCond":
 		r := st.allocRef("cond")
 		return TV{r, f.Signature.Results().At(0).Type()}, true
@@ -344,13 +352,23 @@ func (st *State) primitive(f *ssa.Function, args []Val, site ssa.Instruction) (V
 	case "encoding/json.Unmarshal":
 		errv := st.declare("unmerr", SInt)
 		data, _ := args[0].(SliceV)
+		decoded := false
 		if tv, ok := args[1].(TV); ok {
 			if di, has := st.dyn[tv.T.S]; has {
+				decoded = true
 				if el := derefType(di.typ); el != nil && classify(el) == kStruct {
 					p := st.asPtr(di.val, di.typ)
+					// json.Unmarshal MERGES into its target (absent keys keep the old field values, maps are merged, slices reuse their
+					// backing array): the decode contract below describes the result only for a target that is still zero, which is
+					// established here syntactically: the target object was allocated by this very function activation
+					st.oblige("assert", fmt.Sprintf("json-target-fresh#%d", vc.ordinals[site]), tBool(st.nonnil["fresh:"+p.Base.S]),
+						"json.Unmarshal target is a zero value allocated by this function (Unmarshal merges into whatever the target already holds)")
 					st.jsonDecodeInto(p, el, "", data.Arr, tEq(errv, tInt(0)))
 				}
 			}
+		}
+		if !decoded {
+			fail("json.Unmarshal into a target whose type the executor does not know (the decode contract cannot be applied): %s", fmtVal(args[1]))
 		}
 		return TV{errv, f.Signature.Results().At(0).Type()}, true
 	}
